@@ -6,6 +6,7 @@ import (
 	"github.com/grindlemire/go-lucene/internal/lex"
 	"github.com/grindlemire/go-lucene/internal/verifspec"
 	"github.com/grindlemire/go-lucene/pkg/lucene/expr"
+	"math"
 )
 
 // Contracts of the reduction rules (properties C05, C06, C10, C11, C01).
@@ -14,6 +15,9 @@ import (
 // when it fires, out == [BuildR(elems)] expressed through the public
 // constructors, and exactly the tokens the pattern names leave the
 // non-terminal stack.
+
+// FinitePower: a boost power is a finite number (it has to have a JSON form).
+func FinitePower(f float64) bool { return !math.IsInf(f, 0) && !math.IsNaN(f) }
 
 // ---- vocabulary -------------------------------------------------------------------------
 
@@ -353,6 +357,7 @@ func PatSuffix3(elems []any, t lex.TokType) bool {
 //@   ensures  result2 ==> len(result0) == 1 && IsE(result0[0]) && result0[0] == any(expr.BOOST(E(elems[0]), expr.BoostPowerOf(E(result0[0]))))
 //@   ensures[shape]  result2 ==> ElemOK(result0[0]) && ElemsOK(result0)
 //@   ensures[tokens] result2 ==> Dropped(result1, nonTerminals, 1) && NTok(result0, len(result0)) == NTok(elems, len(elems))-1
+//@   ensures[finite-power] result2 ==> FinitePower(expr.BoostPowerOf(E(result0[0])))
 
 // PatRange: E : [ E TO E ]   with [ or { and ] or }
 func PatRange(elems []any) bool {
